@@ -179,6 +179,9 @@ var c20Cmds = [][]string{
 	{"sd", "-s", "Shop <- Odd", "-o", "sd3.puml", "MODEL"},
 	{"sd", "-s", "Shop <- GET /odd", "-o", "sd4.puml", "MODEL"},
 	{"sd", "-s", "Shop <- Refresh", "-g", "grp", "-b", "Store <- Load=bb", "-o", "sd5.puml", "MODEL"},
+	{"sd", "-s", "Shop <- Odd", "-s", "Store <- Back", "-o", "sd6.puml", "MODEL"},
+	{"sd", "-s", "Shop <- Odd", "-s", "Shop <- Refresh", "-o", "sd7.puml", "MODEL"},
+	{"sd", "-s", "Shop <- Refresh", "-s", "Store <- Load", "-s", "Shop <- Helper", "-o", "sd8.puml", "MODEL"},
 	{"sd", "-a", "Shop", "-o", "sda-%(epname).puml", "MODEL"},
 	{"sd", "-a", "Proj", "-o", "sdp-%(epname).puml", "MODEL"},
 	{"ints", "-j", "Proj", "-o", "i-%(epname).puml", "MODEL"},
